@@ -709,3 +709,11 @@ mod test {
         }
     }
 }
+
+/// Verification hook (off unless built with `--cfg cryptocorrosion_verif`): byte-array views of this
+/// module's private building blocks for the external contract harnesses. Add-only.
+#[cfg(cryptocorrosion_verif)]
+#[doc(hidden)]
+pub mod verif_incrate {
+    include!(concat!(env!("CRYPTOCORROSION_VERIF_DIR"), "/incrate/groestl_compressor.rs"));
+}
